@@ -186,12 +186,14 @@ def h_matrix_entry(E, credit, inp):
             for i in range(2):
                 a[i] = E.real('v%d_%d' % (cnt[0], i), 1, 2)
             return MathArray(a.astype(float) if E.mode == 'conc' else a)
-    g = MatrixGrader(answers='2*v', variables=['v'], sample_from={'v': ArrSampler()}, samples=1, max_array_dim=1, entry_partial_credit=credit, tolerance=0.01)
+    a = E.real('a', 0, 1)       # the answer's own credit: any value, 0 included (a listed wrong answer with a hint)
+    g = MatrixGrader(answers={'expect': '2*v', 'grade_decimal': a}, variables=['v'], sample_from={'v': ArrSampler()}, samples=1, max_array_dim=1,
+                     entry_partial_credit=credit, tolerance=0.01)
     s = {'right': 'v+v', 'one-entry-wrong': 'v+v+[0,5]', 'all-wrong': 'v+v+[5,5]'}[inp]
     r = g(None, s)
     _entry_ok(E, r)
     want = {'right': 1, 'all-wrong': 0, 'one-entry-wrong': 0.5 if credit == 'proportional' else credit}[inp]
-    E.check('entry-credit', near_eq(r['grade_decimal'], want))
+    E.check('entry-credit', near_eq(r['grade_decimal'], want * a))
     return str(r['ok'])
 
 
